@@ -91,7 +91,7 @@ class Case:
 RUN_ENV = {"PATH": "/usr/bin:/bin", "RUST_BACKTRACE": "0", "HOME": "/tmp", "NO_COLOR": "1"}
 
 
-def run_case(binary, case, root, tag):
+def run_case(binary, case, root, tag, watchdog=None):
     d = os.path.join(root, str(tag))
     shutil.rmtree(d, ignore_errors=True)
     os.makedirs(d)
@@ -108,7 +108,7 @@ def run_case(binary, case, root, tag):
     timed_out = False
     try:
         p = subprocess.run(cmd, cwd=d, env=RUN_ENV, stdin=subprocess.DEVNULL, stdout=subprocess.PIPE,
-                           stderr=subprocess.PIPE, timeout=WATCHDOG_S)
+                           stderr=subprocess.PIPE, timeout=watchdog or WATCHDOG_S)
         rc, out, err = p.returncode, p.stdout, p.stderr
     except subprocess.TimeoutExpired as e:
         timed_out = True
@@ -530,6 +530,8 @@ def adversarial_cases(ctx, stats, thorough):
         add("dec-literal-zeros-%d" % digits, F("x = " + "0" * digits + "1;"))
     for src in ("return 0x;", "x = 0x;", "x = 0xg;", "x = 0X1;", "x = 1e5;", "x = 00;", "x = 0x0;", "x = 1_000;",
                 "x = 5 % 0;", "x = 5 / 0;", "x = 5 \\ 0;", "x = 1 << 100000000000;", "x = 1 >> 100000000000;",
+                "x = 1 >> 18446744073709551616;", "x = 1 << 18446744073709551616;", "x = 1 >> 18446744073709551615;",
+                "x = a >> 340282366920938463463374607431768211456;", "x = 7 << 9223372036854775808;",
                 "x = 2 ** 21888242871839275222246405745257275088548364400416034343698204186575808495616;",
                 "x = 0 ** 0;", "x = -1 >> 1;", "x = ~0;", "x = !0;", "x = 1 << 253; x = x << 1; x = x >> 254;",
                 "x = 21888242871839275222246405745257275088548364400416034343698204186575808495617;",
@@ -569,7 +571,7 @@ def adversarial_cases(ctx, stats, thorough):
                                             for i in range(10 ** 4 if thorough else 2000)),
         note="10^4 definitions in the thorough tier (300 kB, beyond `modest size`)")
     for name, fn in FLAT_SHAPES.items():
-        for n in ((100, 400) if not thorough else (100, 400, 1000, 2000)):
+        for n in ((60, 120) if not thorough else (60, 120, 250, 400, 1000, 2000)):
             add("flat:%s-%d" % (name, n), fn(n))
     add("params-1000", "template T(%s) { }\ncomponent main = T(%s);\n" % (", ".join("p%d" % i for i in range(1000)),
                                                                               ", ".join("1" for _ in range(1000))))
@@ -725,7 +727,7 @@ def longest_definition(data):
     return max(best, cur)
 
 
-LONG_DEFINITION = 256
+LONG_DEFINITION = 128
 
 
 def classify_known(ctx, case, res, binary=None, root=None):
@@ -737,7 +739,6 @@ def classify_known(ctx, case, res, binary=None, root=None):
     C01-long-definition-time: time-out AND a definition with more than
       LONG_DEFINITION statements AND the run does end on its own with status
       0/1 and a summary line under a 6x watchdog."""
-    global WATCHDOG_S
     ids = {k["id"]: k for k in ctx.known}
     deepest = max([nesting_depth(v) for v in case.files.values()] + [0])
     if res.get("panic") == "stack overflow" and res.get("rc") in (-6, -11) and deepest > MODEST_DEPTH:
@@ -747,12 +748,7 @@ def classify_known(ctx, case, res, binary=None, root=None):
             return ids.get("C01-deep-nesting-time")
         if max([longest_definition(v) for v in case.files.values()] + [0]) > LONG_DEFINITION and binary:
             if "C01-long-definition-time" in ids:
-                old = WATCHDOG_S
-                WATCHDOG_S = 6 * old
-                try:
-                    r = run_case(binary, case, root, "long")
-                finally:
-                    WATCHDOG_S = old
+                r = run_case(binary, case, root, "long", watchdog=6 * WATCHDOG_S)
                 res["rerun_long_watchdog"] = {"rc": r["rc"], "wall": r["wall"], "last_line": r["last_line"]}
                 if not judge(r):
                     return ids["C01-long-definition-time"]
@@ -823,6 +819,14 @@ def run(ctx, proofs):
                 failures.append((bname, binary, c, r, bad))
             else:
                 shutil.rmtree(r["dir"], ignore_errors=True)
+    # a time-out observed while 16 processes ran side by side is re-measured alone
+    rerun_alone = 0
+    for i, (bname, binary, c, r, bad) in enumerate(failures):
+        if r["timed_out"] and rerun_alone < 12:
+            rerun_alone += 1
+            r2 = run_case(binary, c, os.path.join(root, "alone-" + bname), i)
+            failures[i] = (bname, binary, c, r2, judge(r2))
+    failures = [f for f in failures if f[4]]
     run_s = time.time() - t_run
 
     # verdicts. Every failing input is classified on its own; those outside the
@@ -869,17 +873,20 @@ def run(ctx, proofs):
         ctx.violation(what, rep)
 
     # each known finding is replayed on its witness whether or not the search met it
-    for k in ctx.known:
+    def replay_known(k):
         w = k.get("witness") or {}
         if "shape" not in w:
-            continue
+            return None
         src = (NEST_SHAPES[w["shape"]](w["n"]) if w["shape"] in NEST_SHAPES else FLAT_SHAPES[w["shape"]](w["n"]))
         c = Case("known:" + k["id"], {"t.circom": src.encode()}, ["t.circom"], w["n"])
         r = run_case(debug_bin, c, os.path.join(root, "known"), k["id"])
-        kk = classify_known(ctx, c, r, debug_bin, os.path.join(root, "known-long")) if judge(r) else None
-        if kk and kk["id"] == k["id"]:
-            ctx.known_finding(k["id"], k["what"])
-            known_cases[k["id"]] += 1
+        kk = classify_known(ctx, c, r, debug_bin, os.path.join(root, "known-long-" + k["id"])) if judge(r) else None
+        return k if (kk and kk["id"] == k["id"]) else None
+    with concurrent.futures.ThreadPoolExecutor(max_workers=4) as ex:
+        for k in ex.map(replay_known, ctx.known):
+            if k:
+                ctx.known_finding(k["id"], k["what"])
+                known_cases[k["id"]] += 1
 
     if not ctx.violations and proofs["failures"]:
         ctx.violation("proof obligations of C01 no longer check: " + "; ".join(proofs["failures"])[:700],
@@ -920,7 +927,7 @@ def run(ctx, proofs):
         "run_seconds": round(run_s, 1),
         "failing_signatures_outside_known_classes": {k: len(v) for k, v in seen.items()},
         "failing_inputs_in_known_class": dict(known_cases),
-        "mutation_seeds": len(seeds),
+        "mutation_seeds": len(seeds), "timeouts_remeasured_alone": rerun_alone,
         "watchdog_s": WATCHDOG_S, "address_space_limit_bytes": AS_LIMIT,
         "modest_size": "<= %d bytes and syntactic nesting estimate <= %d" % (MODEST_BYTES, MODEST_DEPTH),
         "panic_sites": panicsites.summary(),
